@@ -238,9 +238,9 @@ fn partial_cfg() -> GenCfg {
     GenCfg { include: false, partials: vec![], depth: 2, ..rand_cfg() }
 }
 
-fn rand_strategy() -> BoxedStrategy<Scenario> {
-    (astgen::nodes(&rand_cfg(), 6), astgen::nodes(&partial_cfg(), 3), astgen::nodes(&partial_cfg(), 3), 0u8..27)
-        .prop_map(|(main, p, q, bound)| {
+fn rand_build(main: Vec<Node>, p: Vec<Node>, q: Vec<Node>, bound: u8) -> Scenario {
+    {
+        {
             let mut data = vec![("arr", RV::Arr(vec![st("e1"), st("e2")]))];
             for (i, n) in RNAMES.iter().enumerate() {
                 if let Some(v) = data_value(n, bound / 3u8.pow(i as u32) % 3) {
@@ -248,11 +248,24 @@ fn rand_strategy() -> BoxedStrategy<Scenario> {
                 }
             }
             Scenario { main: with_probes(&main, &RNAMES), partials: vec![("p".into(), PDef::Ok(with_probes(&p, &RNAMES))), ("q".into(), PDef::Ok(with_probes(&q, &RNAMES)))], data: obj(data) }
-        })
-        .boxed()
+        }
+    }
 }
 
-fn rand_oracle(sc: &Scenario, obs: &mut Obs) -> Check {
+fn rand_strategy() -> BoxedStrategy<Scenario> {
+    (astgen::nodes(&rand_cfg(), 6), astgen::nodes(&partial_cfg(), 3), astgen::nodes(&partial_cfg(), 3), 0u8..27).prop_map(|(main, p, q, bound)| rand_build(main, p, q, bound)).boxed()
+}
+
+/// Byte-driven twin of `rand_strategy` (engine E6b, see astdec.rs).
+pub fn fuzz_case(d: &mut crate::astdec::Dec) -> Scenario {
+    let bound = d.below(27) as u8;
+    let main = d.nodes(&rand_cfg(), 6);
+    let p = d.nodes(&partial_cfg(), 3);
+    let q = d.nodes(&partial_cfg(), 3);
+    rand_build(main, p, q, bound)
+}
+
+pub fn rand_oracle(sc: &Scenario, obs: &mut Obs) -> Check {
     if std::env::var("VERIF_NOOP").is_ok() {
         return Ok(());
     }
